@@ -1,10 +1,12 @@
 package checks
 
 import (
+	"context"
 	"fmt"
 	"math/rand/v2"
 	"os"
 	"strings"
+	"time"
 
 	"verif/harness/internal/core"
 	"verif/harness/internal/crash"
@@ -25,7 +27,7 @@ func init() {
 		Run:         runC03,
 		CaseTimeout: 0,
 		Rule: "case = (small configuration so that files roll over, key universe, single-threaded history of 30-80 calls with explicit Flush, index GC, primary GC, Close and reopen). The directory is imaged at EVERY hook point reached inside Flush/GC/Close/Open calls (hooks sit before each file-system mutation) and after every call; between consecutive images torn variants are synthesised (appended regions cut at 1,2,3,4,5,7,8,12,13,middle,n-5..n-1 bytes and around every record boundary - thorough: every byte for regions <= 512 B; rewritten files emptied and cut). Every image/variant is recovered: OpenStore must succeed, every key must read durable-or-acknowledged state, then the store is used further (puts that roll the files current at the crash, flushes, 2 primary + 2 index GC cycles, Close, reopen) under the C01/C04 oracle with fsck. " +
-			"non-trivial iff the case produced images inside a Flush with pending updates AND inside a GC cycle or Close; distinct = distinct hash of (hook, variant kind, image content)",
+			"non-trivial iff the case produced images inside a Flush with pending updates AND inside a GC cycle or Close; distinct = distinct hash of (hook, variant kind, image content). Interleaved family (case index mod 8 == 7): crash states in which a flush AND a collector are both mid-way: a GC cycle (index or primary) is parked at one of its lock-free step points, a Flush with pending updates is started and parked at one of its own step points (pool swapped / before the log write / after it / between primary, index and freelist), the collector is released and runs to its end while the flush stays parked, then the flush finishes; only one of the two ever runs at a time, so the image taken at every hook point is a true point-in-time state; each is recovered under the same oracle",
 		Assumptions: []string{
 			"process-crash model: everything handed to the kernel survives, user-space buffers are lost; the store uses no mmap",
 			"crash points are those of the executed single-threaded histories (flusher not started, collectors idle)",
@@ -148,6 +150,9 @@ func writerOp(k string) bool {
 }
 
 func runC03(c run.Ctx) *core.CaseResult {
+	if c.Index%8 == 7 {
+		return runC03Interleaved(c)
+	}
 	cfg, u, ops, r := c03Case(c)
 	res := &core.CaseResult{ID: c.ID(), Verdict: "held"}
 	env, err := core.NewEnv(cfg)
@@ -416,4 +421,225 @@ func trunc(b []byte) []byte {
 		return b[:16]
 	}
 	return b
+}
+
+// ------------------------------------------------------------------ interleaved family
+
+var c03FlushHooks = []string{"store.commit.after-primary", "store.commit.after-index", "index.flush.swapped", "index.flush.before-write", "index.flush.written", "mh.flush.swapped", "mh.flush.before-write", "mh.flush.written", "index.flushbucket.rolled", "mh.flushblock.rolled"}
+var c03GCHooksIdx = []string{"index.gc.reap.before-busy", "index.gc.reap.after-busy", "index.gc.reap.before-mark", "index.gc.reap.before-truncate", "index.gc.file.start", "index.gc.before-header", "index.gc.before-remove", "index.gc.free.scanned"}
+var c03GCHooksPrim = []string{"mh.gc.after-freelist", "mh.gc.freelist.before-mark", "mh.gc.file.start", "mh.gc.reap.before-truncate", "mh.gc.relocate.read", "mh.gc.relocate.after-put", "mh.gc.relocate.after-update", "mh.gc.before-header", "mh.gc.before-remove"}
+
+func runC03Interleaved(c run.Ctx) *core.CaseResult {
+	res := &core.CaseResult{ID: c.ID(), Verdict: "held"}
+	r := gen.Rng(c.Seed, propStream("C03il"), uint64(c.Index))
+	cfg := gen.Config{Primary: gen.MH, Bits: []uint8{8, 9}[r.IntN(2)], IndexFileSize: []uint32{40, 100}[r.IntN(2)], PrimaryFileSize: []uint32{50, 120}[r.IntN(2)], FileCache: []int{0, 512}[r.IntN(2)]}
+	env, err := core.NewEnv(cfg)
+	if err != nil {
+		res.Verdict = "inconclusive"
+		return res
+	}
+	defer env.Cleanup()
+	rt := hookrt.New()
+	rt.Install()
+	defer hookrt.Uninstall()
+	u := gen.MakeUniverse(r, cfg.Primary, 5+r.IntN(6))
+	rc := crash.NewRecorder(env.Root, rt)
+	allow := &allowedSet{durable: map[string]kstate{}, pending: map[string][]kstate{}}
+	var rn *seq.Runner
+	commit := func(*seq.Runner) {
+		allow.durable = map[string]kstate{}
+		for d, v := range rn.M.M {
+			allow.durable[d] = kstate{true, string(v)}
+		}
+		allow.pending = map[string][]kstate{}
+	}
+	rn = seq.NewRunner(env, u, rt, res, seq.Opts{AfterFlush: commit})
+	if !rn.Open() {
+		return res
+	}
+	defer rn.Finish()
+	step := 0
+	var trace []string
+	do := func(o seq.Op) {
+		rn.Exec(step, o)
+		step++
+		trace = append(trace, o.String())
+		if o.Kind == "put" || o.Kind == "rm" {
+			k := u.Keys[o.K%len(u.Keys)]
+			v, ok := rn.M.Get(k.Digest)
+			allow.pending[string(k.Digest)] = append(allow.pending[string(k.Digest)], kstate{ok, string(v)})
+		}
+	}
+	var vid uint64 = 1
+	// phase 1: several flushed rounds so that non-current index and primary files with superseded records exist
+	for round := 0; round < 4+r.IntN(4); round++ {
+		for i := 0; i < 2+r.IntN(4); i++ {
+			if r.IntN(5) == 0 {
+				do(seq.Op{Kind: "rm", K: r.IntN(len(u.Keys))})
+			} else {
+				do(seq.Op{Kind: "put", K: r.IntN(len(u.Keys)), VID: vid, VLen: 1 + r.IntN(40)})
+				vid++
+			}
+		}
+		do(seq.Op{Kind: "flush"})
+	}
+	// phase 2: pending updates
+	for i := 0; i < 2+r.IntN(4); i++ {
+		if r.IntN(4) == 0 {
+			do(seq.Op{Kind: "rm", K: r.IntN(len(u.Keys))})
+		} else {
+			do(seq.Op{Kind: "put", K: r.IntN(len(u.Keys)), VID: vid, VLen: 1 + r.IntN(40)})
+			vid++
+		}
+	}
+	if res.Verdict == "violated" {
+		return res
+	}
+	// phase 3: collector parked, flush parked, collector finishes, flush finishes - imaging throughout
+	useIdx := r.IntN(2) == 0
+	gcHook := c03GCHooksPrim[r.IntN(len(c03GCHooksPrim))]
+	if useIdx {
+		gcHook = c03GCHooksIdx[r.IntN(len(c03GCHooksIdx))]
+	}
+	flHook := c03FlushHooks[r.IntN(len(c03FlushHooks))]
+	order := r.IntN(2) // 0: collector parked first; 1: flush parked first (only at hooks that hold no lock a cycle needs)
+	if order == 1 {
+		flHook = []string{"store.commit.after-primary", "store.commit.after-index"}[r.IntN(2)]
+	}
+	rc.Tag = allow.freeze()
+	rc.Call = step
+	rc.SetEnabled(true)
+	rc.Capture("before-interleaving")
+	ggc := hookrt.NewGate(gcHook, 1+r.IntN(2), 3*time.Second)
+	gfl := hookrt.NewGate(flHook, 1, 3*time.Second)
+	gcDone := make(chan struct{})
+	flDone := make(chan error, 1)
+	runGC := func() {
+		defer close(gcDone)
+		core.Protect(func() {
+			if useIdx {
+				rn.S.Index().VerifGC(context.Background(), r.IntN(2) == 0)
+			} else {
+				core.MH(rn.S).GC(context.Background(), int64([]int{1, 50}[r.IntN(2)]))
+			}
+		})
+	}
+	attained := false
+	blocked := false
+	if order == 0 {
+		rt.AddGate(ggc)
+		go runGC()
+		if ggc.WaitArrived(2 * time.Second) {
+			rt.AddGate(gfl)
+			go func() { flDone <- rn.S.Flush() }()
+			if gfl.WaitArrived(2 * time.Second) {
+				attained = true
+			}
+			ggc.Open() // the collector runs to its end while the flush stays parked
+			select {
+			case <-gcDone:
+				rc.Capture("collector-finished-flush-parked")
+			case <-time.After(1500 * time.Millisecond):
+				// the collector needs a lock the parked flush holds: from here on both would run at
+				// once and images would not be point-in-time states any more - stop imaging
+				rc.SetEnabled(false)
+				attained = false
+				res.Add("interleavings_blocked_by_lock", 1)
+				blocked = true
+			}
+			gfl.Open()
+			<-flDone
+			<-gcDone
+		} else {
+			ggc.Open()
+			<-gcDone
+			if err := rn.S.Flush(); err != nil {
+				res.Violate("flush-error", "flush-error", step, nil, "Flush failed: %v", err)
+			}
+		}
+	} else {
+		rt.AddGate(gfl)
+		go func() { flDone <- rn.S.Flush() }()
+		if gfl.WaitArrived(2 * time.Second) {
+			attained = true
+			go runGC()
+			select {
+			case <-gcDone: // a whole cycle while the flush is between two of its stages
+				rc.Capture("collector-finished-flush-parked")
+			case <-time.After(1500 * time.Millisecond):
+				rc.SetEnabled(false)
+				attained = false
+				res.Add("interleavings_blocked_by_lock", 1)
+				blocked = true
+			}
+			gfl.Open()
+			<-flDone
+			<-gcDone
+		} else {
+			gfl.Open()
+			<-flDone
+		}
+	}
+	rt.ClearGates()
+	if ggc.TimedOut.Load() || gfl.TimedOut.Load() {
+		// a gate expired by itself: the two activities may have overlapped, their images are not trusted
+		res.Verdict = "inconclusive"
+		res.Note = "gate expired; interleaved images discarded"
+		return res
+	}
+	if !blocked {
+		// (after a blocked interleaving imaging was switched off mid-way; an image taken now would
+		// differ from the last one by several file-system steps at once)
+		rc.Capture("after-call")
+	}
+	rc.SetEnabled(false)
+	commit(rn)
+	if attained {
+		res.Flag("interleaving-attained")
+		res.Add("interleavings_attained", 1)
+		res.Add("interleaving:"+gcHook+" x "+flHook, 1)
+	} else {
+		res.Add("interleavings_not_attained", 1)
+	}
+	core.Protect(func() { rn.Probe("after-interleaving") })
+	for h, n := range rc.Hooks {
+		res.Add("images@"+h, n)
+	}
+	res.Add("images", int64(len(rc.Points)))
+	var all []crash.Point
+	var multi int64
+	for i, p := range rc.Points {
+		if i > 0 {
+			all = append(all, crash.Variants(rc.Points[i-1], p, c.Tier == "thorough", &multi)...)
+		}
+		all = append(all, p)
+	}
+	for k := range crash.MultiHooks {
+		delete(crash.MultiHooks, k)
+	}
+	limit := 250
+	stride := 1
+	if len(all) > limit {
+		stride = (len(all) + limit - 1) / limit
+	}
+	seen := map[string]bool{}
+	for i := r.IntN(stride); i < len(all); i += stride {
+		p := all[i]
+		h := p.Img.Hash()
+		if seen[h] {
+			continue
+		}
+		seen[h] = true
+		recoverPoint(res, cfg, u, p, r, i)
+		if len(res.Violations) >= 8 {
+			break
+		}
+	}
+	res.Add("distinct_images_recovered", int64(len(seen)))
+	res.Hash = core.HashStrings(cfg.String(), gcHook, flHook, fmt.Sprint(order), strings.Join(trace, ","))
+	res.NonTrivial = attained && len(seen) >= 5
+	if c.Index < 16 || res.Verdict == "violated" {
+		res.Sample = map[string]any{"case": c.ID(), "kind": "interleaved flush x collector", "config": cfg, "collector_parked_at": gcHook, "flush_parked_at": flHook, "order": []string{"collector first", "flush first"}[order], "attained": attained, "images": len(rc.Points), "ops": trace}
+	}
+	return res
 }
